@@ -1,11 +1,18 @@
 #!/bin/sh
 # run every claimed check (tier from $1, default quick) and summarise; writes evidence/*.json
+# exit status: 0 if every check exited 0, 1 otherwise
 cd "$(dirname "$0")"
 T=${1:-quick}
+bad=0
 for c in $(python3 -c "import json;print(' '.join(x['property_id'] for x in json.load(open('MANIFEST.json'))['checks']))"); do
   s=$(date +%s)
   out=$(./check $c --tier $T 2>&1); rc=$?
   e=$(date +%s)
   echo "$c rc=$rc $((e-s))s $(echo "$out" | grep -cE '^VIOLATION') violations; $(echo "$out" | grep -E '^KNOWN' | cut -c1-60 | tr '\n' ';')"
-  [ $rc -ne 0 ] && echo "$out" | grep -E "^(VIOLATION|MACHINERY|Traceback)" | head -5 | cut -c1-300
+  if [ $rc -ne 0 ]; then
+    bad=1
+    echo "$out" | grep -E "^(VIOLATION|MACHINERY|INCOMPLETE)" | head -5 | cut -c1-300
+    echo "$out" | grep -A12 "^Traceback" | head -40
+  fi
 done
+exit $bad
